@@ -167,7 +167,7 @@ def valNfEq (f : Field) (x y : GoVal) : Bool :=
         ((sliceElems x).zip (sliceElems y)).all fun (p, q) => msgNfEq info.isNullable sub p q
     | .primitiveMap =>
       (mapElems x).length == (mapElems y).length &&
-        (mapElems x).all fun (k, p) => match (mapElems y).lookup k with | some q => primNfEq false p q | none => false
+        (mapElems x).all fun (k, p) => match (mapElems y).lookup k with | some q => primNfEq info.isNullable p q | none => false
     | .objectMap =>
       (mapElems x).length == (mapElems y).length &&
         (mapElems x).all fun (k, p) => match (mapElems y).lookup k with
@@ -764,7 +764,6 @@ theorem fromField_reads (ov : List (String × String)) : ∀ (f : Field) (obj : 
       obtain ⟨hvt, _, hnn, hev, hnd, k, hrt, hT⟩ := hok
       have hb := elemReads_prim (fun as s => copyFromFields ov sub as { s with obj := resetOneOfs ((msg.map (·.oneOfNames)).getD []) s.obj })
         ov info (mv.getD info) k hrt (by rw [hev]; exact hrt.ek) (Or.inr hk)
-      rw [hnn] at hb
       exact fieldWith_map _ ov info mv msg attrs st a _ _ _ _ hb (Or.inl hk) ho he hvt hnd hT hl hr
     | objectMap =>
       simp only [hk] at hok hr ⊢
